@@ -50,14 +50,20 @@ class Meta(dict):
         return super().__getitem__(item)
 
     def update(self, *args, **kwargs):
+        other = {}
         if args:
             if len(args) > 1:
                 raise ValueError('Only one argument can be input')
             other = dict(args[0])
-            for key in other:
-                self[key] = other[key]
-        for key in kwargs:
-            self[key] = kwargs[key]
+        other.update(kwargs)
+        # check every key before storing any of them, so that a
+        # rejected update leaves the object as it was
+        for key in other:
+            key = self.key_mapping.get(key, key)
+            if key not in self.valid_keys:
+                raise KeyError(f'{key} is not a valid key for this class.')
+        for key in other:
+            self[key] = other[key]
 
     def __ior__(self, other):
         # dict.__ior__ would bypass the key validation of __setitem__
